@@ -244,9 +244,100 @@ PROPS = {
                 "maps_with_unsorted_object_lines": 2000, "maps_with_equal_start_times": 2000, "breaks_followed_by_an_object": 1000,
                 "lookups_exactly_on_a_sample_point": 500},
     },
+    "C16": {
+        "level": "exploration",
+        "rule": ("exhaustive: all 2- and 3-point paths on the integer grid [-3,3]^2 (x8 px) x 4 path types x 7 requested-length classes {1e-3, inside, exactly natural, "
+                 "beyond, far beyond, 131072, small absolute} x 4 modes; random control-point lists of 1-12 points (every type layout incl. typed last point and untyped "
+                 "start, integer/fractional coordinates up to +-4096 and a +-131072 slice, duplicates, collinear runs) x the same length classes x 4 modes. Oracle: "
+                 "N=Curve::new(.., None), A=Curve::new(.., Some(L)); A.dist()==L bitwise outside the two stated exceptions; A == N cut/extended by an independent reference "
+                 "(lengths bitwise, coordinates 1e-3 + 1e-6 scale); lengths start at 0, finite, non-decreasing within 1e-5; natural dist == polyline length; osu! Catmull "
+                 "total == unsimplified total. Every adjusted curve is also run through the C19 relations. non-trivial = at least 2 control points; distinct by hash of (mode, points, L)"),
+        "assumptions": COMMON_ASSUMPTIONS + ["|natural - L| < f64::EPSILON counts as 'exactly natural' (the statement's own case class)"],
+        "quick": [leg("main", "rel", 16, 3000, timeout=600, max_secs=150), leg("dbg", "dbg", 8, 500, timeout=600, max_secs=150)],
+        "thorough": [leg("main", "rel", 16, 75000, timeout=3600, max_secs=1700), leg("dbg", "dbg", 16, 8000, timeout=3600, max_secs=1500)],
+        "min": {"adjusted_curves": 200000, "cut": 50000, "extended": 50000, "exactly_natural": 10000, "exception_equal_last_points": 1000,
+                "exception_single_point": 1000, "osu_catmull_totals_compared": 1000},
+    },
+    "C17": {
+        "level": "exploration",
+        "rule": ("exhaustive: all three-point perfect curves with points on the integer grid [-4,4]^2 at scales 1, 7, 60 px; random: arcs in all orientations (near-collinear, "
+                 "tiny and huge radii, threshold-riding sub-point counts, almost straight ones that must fall back), Beziers with 2-10 points incl. threshold-riding quadratics, "
+                 "Catmull with 2-8 points incl. repeated points in osu! and non-osu! mode, linear paths, and 2-4 segment compositions for the joint rule; coordinates in "
+                 "[-4096,4096]. Oracle: two-sided distance between the path and independently evaluated exact curves (de Casteljau, circumcircle with side selection, uniform "
+                 "Catmull-Rom with legacy mirroring) within bounds derived from the tolerances; mandated fallbacks; segment end points; multi-segment path == concatenation of "
+                 "the segments' paths with identical joint vertices kept once. Ill-conditioned arcs (f32 circumcentre error > 0.05 px) are only checked structurally and counted. "
+                 "non-trivial = the shape was judged (not skipped as numerically undecidable); distinct by hash of the points"),
+        "assumptions": COMMON_ASSUMPTIONS + ["the oracle is a distance bound, as the property is: a coarser flattening that stays within the derived bound is not reported; "
+                                             "the Bezier bound is the provable one for tolerance 0.25 (observed deviations are about 0.2 of it), arc and Catmull bounds are sharp (observed 0.9)"],
+        "quick": [leg("main", "rel", 16, 4000, timeout=600, max_secs=150)],
+        "thorough": [leg("main", "rel", 16, 190000, timeout=3600, max_secs=1700)],
+        "min": {"arcs_judged_tightly": 20000, "arc_collinear_fallback": 500, "arc_enormous_fallback": 500, "beziers_judged": 10000, "catmull_judged": 5000,
+                "catmull_osu_judged": 5000, "linear_judged": 5000, "joints_checked": 5000},
+    },
+    "C18": {
+        "level": "exploration",
+        "rule": ("exhaustive: all histories of length <= 3 (quick) / 4 (thorough) over 44 operations {Curve::new, BorrowedCurve::new on 12 pooled control-point lists x 4 lengths, "
+                 "SliderPath::curve / curve_with_bufs / borrowed_curve, control_points_mut, expected_dist_mut, clear_curve} sharing one CurveBuffers, in the four modes; random "
+                 "histories of 5-50 operations with random extra control-point lists. Oracle: after every computing step the result equals Curve::new with fresh buffers "
+                 "bitwise (path and lengths); accessors show what was set. non-trivial = history of at least 2 operations; distinct by hash of the history"),
+        "assumptions": COMMON_ASSUMPTIONS + ["'pure' is judged against the function itself evaluated with fresh buffers"],
+        "quick": [leg("main", "rel", 16, 700, timeout=600, max_secs=150), leg("miri", "miri", 8, 4, timeout=900, max_secs=240)],
+        "thorough": [leg("main", "rel", 16, 62500, timeout=3600, max_secs=1700), leg("miri", "miri", 16, 40, timeout=5400, max_secs=2400)],
+        "min": {"operations": 200000},
+    },
+    "C19": {
+        "level": "exploration",
+        "rule": ("curves from the C16 generator (natural and adjusted, zero-length, duplicate vertices, 1-12 control points, all types and modes) x progress values {0, -0.0, -1, "
+                 "-1e300, -inf, 1, 1+eps, 2, 1e300, +inf}, every vertex fraction lengths[i]/dist (strided beyond 300 vertices), 12 random pairs (4 wide, 8 close) and an "
+                 "independent linear-scan interpolation. Relations: ends, clamping, progress_to_dist, arc-length bound between pairs, vertex at its cumulative length "
+                 "(coincident lengths: any coincident vertex); BorrowedCurve answers identically. Positions are compared geometrically (1e-4 + 1e-6 scale). "
+                 "non-trivial = path of at least 2 points; distinct by hash of the path"),
+        "assumptions": COMMON_ASSUMPTIONS + ["NaN progress is outside the statement's domain"],
+        "quick": [leg("main", "rel", 16, 8000, timeout=600, max_secs=150)],
+        "thorough": [leg("main", "rel", 16, 160000, timeout=3600, max_secs=1700)],
+        "min": {"c19_curves": 50000, "c19_vertex_probes": 1000000, "c19_pair_probes": 500000, "c19_zero_length_curves": 2000},
+    },
+    "C20": {
+        "level": "exploration",
+        "rule": ("exhaustive grid: span counts 1-6 x tick/length ratios {0, 1/7, 1/4, 1/3, 1/2, 1, 3/2, NaN, inf} x velocities {0, 0.1, 1, 5} x span durations {1, 36, 72, 1000} x "
+                 "lengths {1, 100, 1000, 100001} x 3 start times, each with a junk-filled tick buffer and again after an abandoned iterator; random real-valued parameters in "
+                 "playable ranges in histories of 2-20 iterators sharing one buffer (junk pre-fill, iterators dropped after k events). Oracle: collected stream == eager "
+                 "reference list (kinds, span indices, times/progress to 1e-9 relative) + structural assertions (one head, per-span ticks then repeat, chronological, "
+                 "identical tick set per span, 10 ms rule, zero tick distance => no ticks, last tick + tail). Streams with more than 1e5 expected events are skipped and counted. "
+                 "One evaluation = one parameter set; distinct by hash of the parameters"),
+        "assumptions": COMMON_ASSUMPTIONS + ["negative or NaN length is outside the domain (length comes from Curve::dist() >= 0)"],
+        "quick": [leg("main", "rel", 16, 6000, timeout=600, max_secs=150), leg("dbg", "dbg", 8, 1000, timeout=600, max_secs=150)],
+        "thorough": [leg("main", "rel", 16, 300000, timeout=3600, max_secs=1700), leg("dbg", "dbg", 16, 20000, timeout=3600, max_secs=1500)],
+        "min": {"events_compared": 2000000, "streams_with_ticks": 50000, "abandoned_iterators": 10000},
+    },
 }
 
 MANIFEST_TEXT = {
+    "C16": {
+        "technique": "runtime monitoring: differential oracle natural-vs-adjusted curve with an independent cut/extend reference; structural invariants on cumulative lengths; exhaustive small integer grids + random lists",
+        "level_text": "For each control-point list the natural and the adjusted curve are computed by the real code and related by an independent cut/extend; exact distance, monotone finite lengths and the two stated exceptions are asserted.",
+        "level_note": "Exhaustive over the small grid (exhaustive: true), sampled beyond; float tolerances are stated in the rule.",
+    },
+    "C17": {
+        "technique": "runtime monitoring: geometric oracle — two-sided distance between computed paths and independently evaluated exact curves with bounds derived from the approximation tolerances; recomposition oracle for segment joints",
+        "level_text": "Every generated shape is compared with its exact curve in both directions against a derived bound; fallbacks and joints are checked structurally; the worst observed/bound ratio is reported in the evidence.",
+        "level_note": "A distance bound, not a reimplementation: conforming but different flattenings pass by design. Arc/Catmull bounds are sharp, the Bezier bound is the provable (looser) one.",
+    },
+    "C18": {
+        "technique": "runtime monitoring: history-based purity oracle (fresh-buffer recomputation after every step) over exhaustive short and random long API histories; borrowed-curve aliasing under Miri",
+        "level_text": "All short histories over 44 operations sharing one buffer set are enumerated; after every step the produced curve must equal a fresh-buffer computation bitwise.",
+        "level_note": "Exhaustive over short histories (exhaustive: true), sampled over long ones.",
+    },
+    "C19": {
+        "technique": "runtime monitoring: relation oracle (ends, clamping, 1-Lipschitz in arc length, vertex hits) + independent linear-scan interpolation on generated curves",
+        "level_text": "Each curve is probed at special, vertex and random progress values; every stated relation is asserted with a geometric tolerance.",
+        "level_note": "Sampled over curves and progress values; exhaustive over the vertices of each curve up to 300.",
+    },
+    "C20": {
+        "technique": "runtime monitoring: eager reference list vs lazy iterator over an exhaustive parameter grid and random histories sharing one tick buffer (junk pre-fill, abandoned iterators)",
+        "level_text": "The full grid of span counts x tick ratios x velocities x durations x lengths is enumerated; random parameter histories exercise buffer reuse; the collected stream must equal the reference and satisfy structural assertions.",
+        "level_note": "Exhaustive over the grid (exhaustive: true), sampled beyond.",
+    },
     "C15": {
         "technique": "runtime monitoring: closed-form recomputation oracle over raw objects from the public per-line API + metamorphic time-shift relation",
         "level_text": "Each generated map is post-processed independently from its raw per-line objects and compared with the decoder; each map is re-generated with shifted times and must differ in times only.",
